@@ -529,9 +529,34 @@ func (w *world) xws(msgs []wsMsg) {
 		key := waitStr(w.wsKey, 2*time.Second)
 		acc := websocket.VerifClientAccept(c)
 		up <- "key=" + hx0(key) + " acc=" + hx0(acc)
-		for _, m := range msgs {
+		for i := 0; i < len(msgs); i++ {
+			m := msgs[i]
 			data := gen(m.seed, m.n)
 			switch m.dir {
+			case 'b':
+				// a burst: the server sends this and the following 'b' messages back to back while the client does
+				// not read; only then does the client read them all
+				j := i
+				for j < len(msgs) && msgs[j].dir == 'b' {
+					w.wsOut <- append([]byte{'w'}, gen(msgs[j].seed, msgs[j].n)...)
+					j++
+				}
+				for k := i; k < j; k++ {
+					waitStr(w.wsIn, 20*time.Second)
+				}
+				for k := i; k < j; k++ {
+					got := make(chan string, 1)
+					go func() {
+						d, err := c.Recv()
+						if err != nil {
+							got <- "e=" + errWord(err)
+						} else {
+							got <- "d=" + dig([]byte(d))
+						}
+					}()
+					out = append(out, "c:"+waitStr(got, 10*time.Second))
+				}
+				i = j - 1
 			case 'c':
 				c.Push(string(data))
 				w.wsOut <- []byte{'r'}
